@@ -152,6 +152,20 @@ func (c *Ctx) Logf(format string, a ...any) {
 func panicSig(p string) string {
 	// first Cloak (or third-party) frame below the panic
 	lines := strings.Split(p, "\n")
+	// prefer the innermost frame of Cloak's own code
+	for i, l := range lines {
+		if strings.HasPrefix(l, "panic(") {
+			for j := i + 2; j < len(lines); j += 2 {
+				fn := strings.TrimSpace(lines[j])
+				if strings.Contains(fn, "cbeuw/Cloak/internal/") && !strings.Contains(fn, "/simsync.") && !strings.Contains(fn, "/verifsim") {
+					if k := strings.LastIndex(fn, "("); k > 0 {
+						fn = fn[:k]
+					}
+					return fn[strings.LastIndex(fn, "/")+1:]
+				}
+			}
+		}
+	}
 	for i, l := range lines {
 		if strings.HasPrefix(l, "panic(") {
 			for j := i + 2; j < len(lines); j += 2 {
